@@ -538,6 +538,8 @@ def _rt4_audited(fn, a: ast.expr, site: ast.AST) -> str | None:
 
     if isinstance(site, ast.BoolOp) and isinstance(site.op, ast.Or) and isinstance(site.values[-1], ast.Constant) and site.values[-1].value == 0 and a in site.values[:-1]:
         return "`x or 0`: 0 and None both mean 0"
+    if isinstance(site, ast.IfExp) and site.test is a and " ".join(src(site.body).split()) == " ".join(src(a).split()) and isinstance(site.orelse, ast.Constant) and site.orelse.value == 0:
+        return "`x if x else 0`: 0 and None both mean 0"
     v = a.value if isinstance(a, ast.NamedExpr) else a
     if isinstance(v, ast.Name):
         v = Resolver(fn.node).expr(v, 1)
@@ -673,6 +675,71 @@ def rule_rx_added_exit(prog: Program, report: Report, pid: str) -> None:
 
 
 # ---------------------------------------------------------------------------- RK-const / RD-default
+def _const_value(text: str):  # noqa: ANN202
+    """Value of a constant spelling: numbers, strings, arithmetic on them, frozenset/set/tuple of
+    literals, `"a b".split()`, re.compile(<literal>) (as ("re", pattern, flags)).  ValueError otherwise."""
+    def ev(e: ast.AST):  # noqa: ANN202
+        if isinstance(e, ast.Constant):
+            return e.value
+        if isinstance(e, (ast.Tuple, ast.List)):
+            return tuple(ev(x) for x in e.elts)
+        if isinstance(e, ast.Set):
+            return frozenset(ev(x) for x in e.elts)
+        if isinstance(e, ast.UnaryOp) and isinstance(e.op, (ast.USub, ast.UAdd, ast.Invert)):
+            v = ev(e.operand)
+            return -v if isinstance(e.op, ast.USub) else (+v if isinstance(e.op, ast.UAdd) else ~v)
+        if isinstance(e, ast.BinOp) and isinstance(e.op, (ast.Add, ast.Sub, ast.Mult, ast.Pow, ast.LShift, ast.RShift, ast.BitOr, ast.BitAnd, ast.FloorDiv)):
+            a, b = ev(e.left), ev(e.right)
+            if not all(isinstance(x, (int, str)) for x in (a, b)) or (isinstance(e.op, ast.Pow) and (not isinstance(b, int) or abs(b) > 64)):
+                raise ValueError("operand")
+            import operator as _o
+
+            return {ast.Add: _o.add, ast.Sub: _o.sub, ast.Mult: _o.mul, ast.Pow: _o.pow, ast.LShift: _o.lshift, ast.RShift: _o.rshift, ast.BitOr: _o.or_, ast.BitAnd: _o.and_, ast.FloorDiv: _o.floordiv}[type(e.op)](a, b)
+        if isinstance(e, ast.Call) and isinstance(e.func, ast.Name) and e.func.id in ("frozenset", "set", "tuple") and len(e.args) <= 1 and not e.keywords:
+            v = ev(e.args[0]) if e.args else ()
+            return frozenset(v) if e.func.id != "tuple" else tuple(v)
+        if isinstance(e, ast.Call) and isinstance(e.func, ast.Attribute) and e.func.attr == "split" and isinstance(e.func.value, ast.Constant) and isinstance(e.func.value.value, str) and len(e.args) <= 1 and not e.keywords:
+            return tuple(e.func.value.value.split(*[ev(a) for a in e.args]))
+        if isinstance(e, ast.Call) and isinstance(e.func, ast.Attribute) and e.func.attr == "compile" and isinstance(e.func.value, ast.Name) and e.func.value.id == "re" and e.args and isinstance(e.args[0], ast.Constant) and isinstance(e.args[0].value, str):
+            flags = 0
+            if len(e.args) > 1 or e.keywords:
+                raise ValueError("flags")
+            return ("re", e.args[0].value, flags)
+        raise ValueError(type(e).__name__)
+
+    return ev(ast.parse(text, mode="eval").body)
+
+
+def _const_equal(cur: str, old: str) -> tuple[bool, str] | None:
+    """(equal, witness-text) or None when a spelling is not understood.  Two regular expressions are
+    compared on every string up to length 4 over an alphabet drawn from both patterns plus one
+    representative of each character class - a bounded decision: it can only err towards "equal"."""
+    import itertools
+    import re as _re
+
+    try:
+        a, b = _const_value(cur), _const_value(old)
+    except (ValueError, SyntaxError, TypeError, OverflowError):
+        return None
+    if isinstance(a, tuple) and len(a) == 3 and a[0] == "re" and isinstance(b, tuple) and len(b) == 3 and b[0] == "re":
+        try:
+            ra, rb = _re.compile(a[1]), _re.compile(b[1])
+        except _re.error:
+            return None
+        lits = {ch for pat in (a[1], b[1]) for ch in pat if not ch.isalnum() or True}
+        alphabet = sorted((lits | set("a0 _-\r\n\t;\u00e9")) - set("\\[](){}|^$*+?."))[:14] + list("[](){}|,+*?.")[:6]
+        alphabet = list(dict.fromkeys(alphabet))[:16]
+        for n_ in range(0, 4):
+            for tup in itertools.product(alphabet, repeat=n_):
+                w = "".join(tup)
+                if ra.findall(w) != rb.findall(w) or bool(ra.match(w)) != bool(rb.match(w)) or ra.split(w) != rb.split(w):
+                    return False, f"; e.g. on {w!r} the two patterns behave differently"
+        return True, ""
+    if type(a) is not type(b) and not (isinstance(a, (int, float)) and isinstance(b, (int, float))):
+        return (False, "") if not (isinstance(a, (tuple, frozenset)) and isinstance(b, (tuple, frozenset))) else ((frozenset(a) == frozenset(b)) if isinstance(a, frozenset) or isinstance(b, frozenset) else (a == b), "")
+    return a == b, ""
+
+
 def rule_rk_const(prog: Program, report: Report, pid: str) -> None:
     """Module-level constants of the files a property's anchors name (token and whitespace patterns,
     bit flags of the deletion / whitespace options, the 16-bit split of the recover encoding) keep the
@@ -715,19 +782,17 @@ def rule_rk_const(prog: Program, report: Report, pid: str) -> None:
             n += 1
             cur = " ".join(src(now[name]).split())
             same = cur == old
+            witness = ""
             if not same:
-                try:  # numerically equal spellings (`2 ** 16` / `65536` / `0x10000`)
-                    a, b = ast.literal_eval(cur), ast.literal_eval(old)
-                    same = a == b
-                except (ValueError, SyntaxError, TypeError):
-                    try:
-                        same = eval(compile(ast.parse(cur, mode="eval"), "<const>", "eval"), {"__builtins__": {}}) == eval(compile(ast.parse(old, mode="eval"), "<const>", "eval"), {"__builtins__": {}}) if all(isinstance(x, (ast.Expression, ast.BinOp, ast.UnaryOp, ast.Constant, ast.operator, ast.unaryop)) for t in (cur, old) for x in ast.walk(ast.parse(t, mode="eval"))) else False
-                    except Exception:
-                        same = False
+                verdict = _const_equal(cur, old)
+                if verdict is None:
+                    report.errors.append(f"RK-const: {rel}: {name} is now `{cur[:60]}`, which cannot be compared with the reviewed `{old[:60]}` (unrecognised spelling; found 0 time(s) in a comparable form)")
+                    continue
+                same, witness = verdict
             if same:
                 report.ob("RK-const", rel, f"{name} = {old[:50]}")
             else:
-                report.violate("RK-const", f"{rel}::<module>", now[name], f"{name} = {cur[:60]}", f"the module constant {name} was `{old[:80]}` in the reviewed tree and is `{cur[:80]}` now; every function that encodes, decodes or tests values with it changes meaning together", what=f"{name} keeps its reviewed value")
+                report.violate("RK-const", f"{rel}::<module>", now[name], f"{name} = {cur[:60]}", f"the module constant {name} was `{old[:80]}` in the reviewed tree and is `{cur[:80]}` now; every function that encodes, decodes or tests values with it changes meaning together{witness}", what=f"{name} keeps its reviewed value")
     report.count("RK-const module constants compared", n)
 
 
